@@ -54,8 +54,8 @@ let () =
              let outs = List.map (fun e ->
                  m := mstep_tsf fops (z_of_int tsf) c !m e;
                  let s = (!m).m_st in
-                 Printf.sprintf "it=%d C=%s K=%s ST=%d FS=%d W=%s"
-                   (int_of_z (!m).m_it) (hexl s.s_centers) (hex s.s_k) (int_of_z s.s_stage) (int_of_z s.s_first) (hex s.s_W)) evs in
+                 Printf.sprintf "it=%d C=%s K=%s ST=%d FS=%d W=%s FE=%s"
+                   (int_of_z (!m).m_it) (hexl s.s_centers) (hex s.s_k) (int_of_z s.s_stage) (int_of_z s.s_first) (hex s.s_W) (hex s.s_FE)) evs in
              Printf.printf "%s\n" (String.concat " ; " outs)
            end else
            let m = run fops c evs in
